@@ -369,6 +369,8 @@ func (w *World) stateDigest(n *Node) string {
 		}
 		// remember for two calls whether orphans were waiting (their retry may change the ledger at any time)
 		w.parkedSeen[n.Idx] = w.parkedSeen[n.Idx]/2 + 2*len(s.Parked)
+	} else {
+		parts = append(parts, stateNA)
 	}
 	// the awaiting cache is part of the state as long as nothing in it can have expired yet
 	// (expired entries disappear whenever the cache's cleaner runs)
@@ -387,13 +389,37 @@ func (w *World) stateDigest(n *Node) string {
 		}
 		w.cacheKeys[n.Idx] = [2][]string{w.cacheKeys[n.Idx][1], keys} // the last two listings, for violation details
 		parts = append(parts, strings.Join(keys, ","))
+	} else {
+		parts = append(parts, stateNA)
 	}
 	parts = append(parts, strings.Join(n.Goss.PeerList(), ","))
 	for i, p := range parts {
+		if p == stateNA {
+			continue
+		}
 		h := sha256.Sum256([]byte(p))
 		parts[i] = fmt.Sprintf("%x", h[:5])
 	}
-	return strings.Join(parts, "|") // ledger | awaiting cache (while nothing can expire) | peers
+	return strings.Join(parts, "|") // ledger | awaiting cache (not judged once something in it can expire) | peers
+}
+
+const stateNA = "not-judged"
+
+// stateChanged compares two state digests part by part; a part that is not judged on either side does not count.
+func stateChanged(a, b string) bool {
+	pa, pb := strings.Split(a, "|"), strings.Split(b, "|")
+	if len(pa) != len(pb) {
+		return false // a snapshot was not available on one side
+	}
+	for i := range pa {
+		if pa[i] == stateNA || pb[i] == stateNA {
+			continue
+		}
+		if pa[i] != pb[i] {
+			return true
+		}
+	}
+	return false
 }
 
 // cacheDelta describes how the last two awaiting-cache listings of node n differ.
@@ -429,7 +455,7 @@ func stateDiff(a, b string) string {
 	pa, pb := strings.Split(a, "|"), strings.Split(b, "|")
 	var out []string
 	for i := range pa {
-		if i < len(pb) && pa[i] != pb[i] {
+		if i < len(pb) && pa[i] != pb[i] && pa[i] != stateNA && pb[i] != stateNA {
 			n := "part"
 			if len(pa) == 3 {
 				n = names[i]
@@ -537,7 +563,7 @@ func crashScenario(w *World, p *Plan, rec *Record) {
 		_ = resp
 		if err != nil && pn == "" && !strings.HasPrefix(c.name, "peer.") {
 			w.probe("c15-rejected-requests")
-			if after := w.stateDigest(n); after != before && !w.ledgerMovedLegitimately(n) && quietBefore && w.Net.quiet() && netMark == len(w.Net.Log) && callMark == len(w.AccCalls) {
+			if after := w.stateDigest(n); stateChanged(before, after) && !w.ledgerMovedLegitimately(n) && quietBefore && w.Net.quiet() && netMark == len(w.Net.Log) && callMark == len(w.AccCalls) {
 				w.violate("C15", "state", "rejected-request-changed-state:"+c.name, n.Idx, "{%s} changed %s", desc, stateDiff(before, after))
 			}
 		}
